@@ -446,6 +446,81 @@ func C03(r *core.Run) {
 		emit(out)
 	})
 	deaths = append(deaths, d4...)
+	// --all walks over a tree in which several assembly files address the same operand: which one wins must not
+	// depend on a map order (every schedule with <= 1 (thorough: 2) deviations at the map ranges outside parseLine; update --all and compare --all)
+	walkOuts, d6 := core.Parallel(r, "walks", fpIn{Dir: dir, Reps: r.Pick(1, 2)}, 2, func(in fpIn, shard, n int, emit func(envOut)) {
+		wd := filepath.Join(in.Dir, fmt.Sprint("walk-", shard))
+		var out envOut
+		mk := func() {
+			os.RemoveAll(wd)
+			t := c03Tree()
+			t["regex-assembly/123456.ra"] = "plain\n"
+			t["regex-assembly/123456-chain0.ra"] = "zero\n"
+			t["regex-assembly/123456-chain00.ra"] = "doublezero\n"
+			t["regex-assembly/sub/123456.ra"] = "nested\n"
+			t["regex-assembly/123457.ra"] = "  other\n"
+			t["regex-assembly/123457-chain0.ra"] = "otherzero\n\n"
+			t["rules/REQUEST-123-TEST.conf"] = rulesFile(ruleSpec{ID: "123456", Regex: "OLD"}, ruleSpec{ID: "123457", Regex: "OLD2"})
+			t.Materialise(wd)
+		}
+		mk()
+		root := inproc.NewRoot(wd)
+		cmds := []struct {
+			Name string
+			Run  func() inproc.CmdResult
+		}{{"update --all", root.UpdateAll}, {"compare --all", func() inproc.CmdResult { return root.CompareAll(false) }}}
+		c := cmds[shard%len(cmds)]
+		conf := filepath.Join(wd, "rules/REQUEST-123-TEST.conf")
+		pristine, _ := os.ReadFile(conf)
+		core.SiteFilter = func(site string) bool { return !strings.HasSuffix(site, ":parseLine") }
+		defer func() { core.SiteFilter = nil }()
+		outs, _, ex := outcomesUnder(in.Reps, func() string {
+			os.WriteFile(conf, pristine, 0o644)
+			res := c.Run()
+			return res.Obs() + "\x00" + treeHash(core.ReadTree(wd))
+		})
+		out.Runs += ex
+		if len(outs) > 1 {
+			out.Bad = append(out.Bad, fmt.Sprintf("`%s` over a tree with several assembly files per operand has %d outcomes under different map orders: %q", c.Name, len(outs), clip(outs, 100)))
+		}
+		emit(out)
+	})
+	deaths = append(deaths, d6...)
+	envOuts = append(envOuts, walkOuts...)
+	// the way standard input arrives (one write, several writes with pauses, more than a pipe buffer holds) is
+	// part of "any process": `generate -` must print what `generate FILE` prints for the same bytes
+	stdinOuts, d5 := core.Parallel(r, "stdin", fpIn{Dir: dir, Texts: menu}, r.Workers, func(in fpIn, shard, n int, emit func(envOut)) {
+		wd := filepath.Join(in.Dir, fmt.Sprint("stdin-", shard))
+		var out envOut
+		texts := []string{strings.Repeat("alpha\nbeta|gamma\n##! note\n", 4000)} // > 64 KiB
+		for li, line := range in.Texts {
+			if li%4 == 0 {
+				texts = append(texts, line+"\nsecond|entry\n##!> include inc\nlast\n")
+			}
+		}
+		for ti, text := range texts {
+			if ti%n != shard {
+				continue
+			}
+			os.RemoveAll(wd)
+			t := c03Tree()
+			t["regex-assembly/123456.ra"] = text
+			t.Materialise(wd)
+			file := core.RunCLI(r.Crs, wd, "", nil, "-d", wd, "regex", "generate", "123456")
+			want := fmt.Sprint(file.Exit, "\x00", file.Stdout)
+			half := len(text) / 2
+			for name, chunks := range map[string][]string{"one write": {text}, "first byte, pause, rest": {text[:1], text[1:]}, "three writes": {text[:half/2], text[half/2 : half], text[half:]}, "line by line start": {text[:strings.Index(text, "\n")+1], text[strings.Index(text, "\n")+1:]}} {
+				res := core.RunCLIChunked(r.Crs, wd, chunks, 30*time.Millisecond, nil, "-d", wd, "regex", "generate", "-")
+				out.Runs++
+				if got := fmt.Sprint(res.Exit, "\x00", res.Stdout); got != want {
+					out.Bad = append(out.Bad, fmt.Sprintf("`regex generate -` with the %d bytes of the file arriving as %s gives %q, `regex generate 123456` gives %q", len(text), name, tailStr(got, 120), tailStr(want, 120)))
+				}
+			}
+		}
+		emit(out)
+	})
+	deaths = append(deaths, d5...)
+	envOuts = append(envOuts, stdinOuts...)
 	if r.IsWorker() {
 		return
 	}
